@@ -195,7 +195,7 @@ Definition read_files (fl : list fentry) (files : list (list (str * option str))
 Inductive lres :=
 | LNotFound                                              (* false *)
 | LFound (v : value) (s : source) (file : option nat)    (* true; file = *source_file when the source is a file *)
-| LCrash.                                                (* lookup_override: strdup(NULL) *)
+| LCrash.                                                (* never produced any more (was: strdup(NULL) in lookup_override) *)
 
 Definition is_null_str (v : value) : bool := match v with VStr None => true | _ => false end.
 
@@ -204,7 +204,7 @@ Inductive stage := StNone | StVal (v : value) (s : source) (file : option nat) |
 (* lookup_override(..) || lookup_env(..) || lookup_file(..), with the side effects of lookup_file *)
 Definition lookup_stages (st : state) (i : nat) (p : param) : state * stage :=
   match p_over p with
-  | Some v => (st, if is_null_str v then StCrash else StVal v SOverride None)
+  | Some v => (st, StVal v SOverride None)    (* a NULL string override is returned as NULL *)
   | None =>
     match lookup_env (st_env st) p with
     | Some v => (st, StVal v SEnv None)
